@@ -107,6 +107,8 @@ impl Scenario for KeepAlive {
             acts.push(Act::Send(0, "PING tok".into()));
             // the form with a server name after the token: the token is still the first parameter
             acts.push(Act::Send(0, "PING tok2 irc.irc".into()));
+            // a token with inner and trailing blanks comes back byte for byte
+            acts.push(Act::Send(0, "PING :tok 3  ".into()));
             // other traffic: a capability request after registration (no CAP END is owed)
             acts.push(Act::Send(0, "CAP REQ :multi-prefix".into()));
             if self.full {
